@@ -157,6 +157,18 @@ def run_case(prop, case, spec, scratch, stats):
                 d["at_op"] = i
             ds += new
             if sut.dead:
+                if "C19" in props and op["op"] not in ("reopen", "clear", "overwrite_open") and not any("exception" in d["kind"] for d in new):
+                    # the request diverged from the model on its report; its storage is still accounted for:
+                    # blocks beyond what the model's stem-prefixes need are blocks no request asked for
+                    try:
+                        tl, ll = sut.store_lengths()
+                        et = sut.m.trie_blocks() * 128
+                        stats["C19_sizes_at_divergence"] += 1
+                        if tl > et:
+                            ds.append({"props": ["C19"], "kind": "store-grew-beyond-what-the-requests-account-for", "at_op": i,
+                                       "detail": {"op": op["op"], "trie_blocks": tl // 128, "accounted_for": et // 128, "diverged_on": [d["kind"] for d in new][:2]}})
+                    except Exception:
+                        pass
                 break
             ev = M.m2_take()
             forced = False
